@@ -196,6 +196,18 @@ def main():
     wrapped = bool(re.search(r"offset\s+as\s+i64", msgs_fn)) or bool(re.search(r"offset\s+as\s+i64", fn_body(sql_w, "pending_welcomes", "fn:pending_welcomes(sqlite)")))
     boolean("sqlOffsetClamped", not wrapped, "mdk-sqlite-storage messages()/pending_welcomes(): offset is not wrapped into a negative i64")
 
+    # ---- C04: is the id of a received application message recomputed before it is used? ----------------
+    app_rs = strip_comments(non_test(read("crates/mdk-core/src/messages/application.rs")))
+    pam = fn_body(app_rs, "process_application_message", "fn:process_application_message")
+    first_use = re.search(r"\brumor\s*\.\s*id\s*\(\s*\)", pam)
+    if not first_use or "save_message_record" not in pam:
+        raise Missing("fact:rumorIdRecomputed")
+    before = pam[:first_use.start()]
+    cleared = bool(re.search(r"\brumor\s*\.\s*id\s*=\s*None\s*;", before)) or bool(re.search(r"\brumor\s*\.\s*id\s*\.\s*take\s*\(\s*\)", before))
+    verified = bool(re.search(r"\brumor\s*\.\s*verify_id\s*\(\s*\)", before))
+    boolean("rumorIdRecomputed", cleared or verified,
+            "messages/application.rs process_application_message: the rumor id is cleared (recomputed) or verified before `rumor.id()` is used as the storage key")
+
     # ---- C14: tracing sites / error formats / Debug impls go to their own file GeneratedLeak.lean ----
     sys.path.insert(0, os.path.dirname(os.path.abspath(__file__)))
     import gen_leak
@@ -466,6 +478,36 @@ def main():
         return 0 <= a < b and "return Err" in body[a:b]
     boolean("acceptRefusesAccepted", refuses_accepted("accept_welcome") and refuses_accepted("decline_welcome"), "mdk-core welcomes.rs accept_welcome and decline_welcome return Err for a stored welcome that is already Accepted, before preview")
     boolean("welcomeProcessChecksHeldGroup", bool(re.search(r"GroupState\s*::\s*Active", pw_body.split("GroupState::Pending")[0])) , "mdk-core welcomes.rs process_welcome looks for an Active group of that id before writing (false = it does not)")
+
+    # ---- media facts (C17, epoch-hint part) ---------------------------------------------------------------
+    mgr_rs = strip_comments(non_test(read("crates/mdk-core/src/encrypted_media/manager.rs")))
+    dfd = fn_body(mgr_rs, "decrypt_from_download", "fn:decrypt_from_download")
+    arms = re.search(r"Ok\(data\)\s*=>\s*Ok\(data\)\s*,(.*?)=>\s*\{", dfd, re.S)
+    if not arms:
+        raise Missing("media:decrypt_from_download-arms")
+    fallback_on = sorted(set(re.findall(r"EncryptedMediaError::(\w+)", arms.group(1))))
+    boolean("mediaFallbackAsModelled", fallback_on == ["DecryptionFailed", "NoExporterSecretForEpoch"] and "derive_encryption_key(" in dfd
+            and bool(re.search(r"Err\(e\)\s*=>\s*Err\(e\)", dfd)),
+            "manager.rs decrypt_from_download: hint first; current-epoch key on " + "|".join(fallback_on) + "; other errors returned")
+    th = fn_body(mgr_rs, "try_decrypt_with_epoch_hint", "fn:try_decrypt_with_epoch_hint")
+    boolean("mediaHintAsModelled",
+            bool(re.search(r'format!\(\s*"x \{\}"\s*,\s*hex::encode\(reference\.original_hash\)\s*\)', th))
+            and th.find("find_message_epoch_by_tag_content") < th.find("get_group_exporter_secret") < th.find("derive_encryption_key_with_secret") < th.find("decrypt_and_verify")
+            and th.find("find_message_epoch_by_tag_content") > 0,
+            "manager.rs try_decrypt_with_epoch_hint: epoch of a stored message containing `x <hash>` → stored secret of that epoch → key → decrypt_and_verify")
+    dav = fn_body(mgr_rs, "decrypt_and_verify", "fn:decrypt_and_verify")
+    boolean("mediaHashCheckedAfterDecrypt", 0 < dav.find("decrypt_data_with_aad") < dav.find("HashVerificationFailed"),
+            "manager.rs decrypt_and_verify: AEAD first, then SHA-256 of the plaintext against the reference")
+    proc_rs = strip_comments(non_test(read("crates/mdk-core/src/messages/process.rs")))
+    mcall = re.search(r"process_application_message\s*\((.*?)\)\s*[?;]", proc_rs, re.S)
+    if not mcall:
+        raise Missing("media:process_application_message-call")
+    boolean("appMessageFiledUnderReceiverEpoch", "mls_group.epoch().as_u64()" in mcall.group(1),
+            "messages/process.rs: process_application_message is given mls_group.epoch() (the RECEIVER's epoch) as the epoch to store")
+    gi_rs = strip_comments(non_test(read("crates/mdk-core/src/extension/group_image.rs")))
+    dgi = fn_body(gi_rs, "decrypt_group_image", "fn:decrypt_group_image")
+    i_hash, i_v2, i_v1 = dgi.find("HashVerificationFailed"), dgi.find("IMAGE_ENCRYPTION_CONTEXT_V2"), dgi.find("new_from_slice(image_key.as_ref())")
+    boolean("groupImageDecryptAsModelled", 0 < i_hash < i_v2 < i_v1, "group_image.rs decrypt_group_image: blob hash, then the HKDF (v2) key, then the raw (v1) key")
 
     # ---- emit -------------------------------------------------------------------------------
     lines = ["/- GENERATED by tools/gen_model.py from the current /repo source — do not edit. -/",
